@@ -468,6 +468,16 @@ class Body:
             if 0 < local <= self.argc and not [p for p in proj if p != "*"]:
                 return ("arg", local)
             strip = tuple(p for p in proj if p != "*")
+            if len(strip) == 1 and re.fullmatch(r"\.\d+", str(strip[0])) and not (0 < local <= self.argc):
+                # component of a temporary tuple built in one place (`let (a, b) = (x, y);`): on to what was put in
+                td = self.single_def(local)
+                if td is not None and td[1] != "term" and td[2]["k"] == "aggr" and td[2].get("ak") == "tuple" and int(strip[0][1:]) < len(td[2]["ops"]):
+                    o = td[2]["ops"][int(strip[0][1:])]
+                    k = op_const(o)
+                    if k is not None:
+                        return ("const", self.resolve_const(k))
+                    pl = op_place(o)
+                    continue
             if strip:
                 return ("place", pl)
             d = self.single_def(local)
@@ -639,6 +649,18 @@ class Program:
                 text = text.replace(f'"name": "{nl}"', f'"name": "{ol}"')
             units = _json.loads(text)
             self._init(units)
+        try:
+            fren = strops.field_renames(self)
+        except Exception:  # noqa: BLE001
+            fren = {}
+        if fren:
+            # struct fields renamed in place: projections (".name"), field expressions and declarations get the reviewed name
+            text = _json.dumps(units)
+            for new, old in fren.items():
+                text = text.replace(f'".{new}"', f'".{old}"').replace(f'"name": "{new}"', f'"name": "{old}"')
+            units = _json.loads(text)
+            self._init(units)
+            tren = dict(tren, **{"field " + k: "field " + v for k, v in fren.items()})
         try:
             ren = strops.renames(self)
         except Exception:  # noqa: BLE001
